@@ -112,6 +112,28 @@ var c15Bases = map[string]string{
     - getppid
     - getgid
 `,
+	"execve-denied": `seccomp:
+  default_action: allow
+  syscalls:
+  - action: errno
+    names:
+    - getppid
+  - action: errno
+    names:
+    - getuid
+    - execve
+`,
+	"execve-not-in-allow-list": `seccomp:
+  default_action: errno
+  syscalls:
+  - action: allow
+    names:
+    - getppid
+    - read
+    - write
+    - mmap
+    - rt_sigaction
+`,
 	"log-and-trailing-group": `seccomp:
   default_action: allow
   syscalls:
@@ -201,6 +223,18 @@ func checkC15(tier, replay string) int {
 			def("unknown-action", strings.Replace(text, "action: errno", "action: deny", 1))
 			def("unknown-default", strings.Replace(text, "default_action: allow", "default_action: permit", 1))
 			def("unknown-syscall", strings.Replace(text, "- getppid", "- getppid_", 1))
+			// an unknown name at every position where a syscall name stands (plain names and names_with_args entries)
+			occ := 0
+			for _, ln := range strings.SplitAfter(text, "\n") {
+				t := strings.TrimSpace(ln)
+				isName := strings.HasPrefix(t, "- name: ") || (strings.HasPrefix(t, "- ") && !strings.Contains(t, ":"))
+				if isName {
+					idx := strings.Index(text, ln)
+					bad := strings.TrimRight(ln, "\n") + "_x\n"
+					def(fmt.Sprintf("unknown-syscall-at-%d", occ), text[:idx]+bad+text[idx+len(ln):])
+					occ++
+				}
+			}
 			if i := strings.LastIndex(text, "    - "); i > 0 {
 				def("unknown-syscall-last-group", text[:i]+"    - no_such_call\n"+text[i:])
 			}
@@ -227,6 +261,19 @@ func checkC15(tier, replay string) int {
 			fmt.Fprintf(&big, "    - name: getppid\n      arguments:\n      - argument: 0\n        operation: Equal\n        value: %d\n", 1000+i)
 		}
 		cases = append(cases, c15Case{Label: "oversize/kernel-EINVAL", File: big.String(), FileKind: "content"})
+		// JSON renderings (JSON is YAML) with operands that need all 64 bits
+		for oi, v := range []uint64{1<<53 + 1, 1<<63 - 1, 1<<64 - 1, 1 << 63, 0x0102030405060708} {
+			for _, op := range []seccomp.Operation{seccomp.Equal, seccomp.GreaterThan, seccomp.BitsSet} {
+				type wrap struct {
+					Seccomp seccomp.Policy `json:"seccomp"`
+				}
+				pol := seccomp.Policy{DefaultAction: seccomp.ActionAllow, Syscalls: []seccomp.SyscallGroup{{Action: seccomp.ActionErrno, Names: []string{"getuid"},
+					NamesWithCondtions: []seccomp.NameWithConditions{{Name: "getppid", Conditions: seccomp.ArgumentConditions{{Argument: uint32(oi % 6), Operation: op, Value: v}}}}}}}
+				jb, _ := json.Marshal(wrap{pol})
+				cases = append(cases, c15Case{Label: fmt.Sprintf("json-operand/%s-%#x", op, v), File: string(jb), FileKind: "content"})
+				cases = append(cases, c15Case{Label: fmt.Sprintf("json-operand-indented/%s-%#x", op, v), File: "\n  " + string(jb) + "\n", FileKind: "content"})
+			}
+		}
 		cases = append(cases, c15Case{Label: "missing-file", FileKind: "missing"})
 		cases = append(cases, c15Case{Label: "directory", FileKind: "directory"})
 	}
@@ -252,6 +299,9 @@ func checkC15(tier, replay string) int {
 			mustRefuse = "policy file cannot be read"
 		} else if p, err := loadThroughConfigPath([]byte(c.File)); err != nil {
 			mustRefuse = "config error: " + err.Error()
+		} else if v, why := refsem.Valid(a, p); v == refsem.MustReject {
+			// judged by the reference (not by the library under test): the file denotes a defective policy
+			mustRefuse = "policy invalid: " + why
 		} else if insts, err, pan := engine.Compile(a, p, false); err != nil || pan != nil {
 			mustRefuse = fmt.Sprintf("policy invalid: %v %v", err, pan)
 		} else {
@@ -261,6 +311,10 @@ func checkC15(tier, replay string) int {
 				mustRefuse = "kernel refuses (program too long)"
 			} else if c.Unpriv && len(c.ExtraArgs) > 0 {
 				mustRefuse = "kernel refuses (no privilege, no no_new_privs)"
+			} else if d := refsem.Decide(a, p, cbpf.Event{Nr: mustNum(a, "execve"), Arch: a.ID}); d != refsem.RetAllow && d != refsem.RetLog {
+				// the sandbox starts the target with execve after the filter is in force: a policy that does not allow
+				// execve cannot start anything, and the command must not work around its own policy
+				mustRefuse = fmt.Sprintf("the policy answers %#x to execve, so no target can be started under it", d)
 			}
 		}
 		marker := filepath.Join(dir, "marker")
@@ -373,7 +427,7 @@ func checkC15(tier, replay string) int {
 	ctx.Cov["runs_in_which_the_target_started"] = ranTarget
 	ctx.Cov["runs_that_must_be_refused"] = refused
 	ctx.Cov["probe_events_observed_by_the_target"] = probes
-	ctx.Cov["rule"] = "the built cmd/sandbox binary is run with a probe target (a separate program that first appends a marker line, then issues probe syscalls for every partition cell of the policy) on: 6 base policy files whole (root / uid 65534 / with -no-new-privs=false / non-existent target), every line prefix and every byte prefix inside the first and last rule (thorough: every byte prefix), 13 defect kinds per base (unknown action/default/syscall/operation, wrong key, no syscalls, non-YAML, tab indentation, empty, argument 6 / -1, non-numeric value, duplicate name), a policy compiling to > 4096 instructions, a missing file and a directory; the same bytes are loaded by the harness through ucfg: if that fails, the policy is invalid or the kernel must refuse, the run must exit non-zero with no marker; otherwise the marker exists and the target's observations equal the reference decisions of the policy the file denotes"
+	ctx.Cov["rule"] = "the built cmd/sandbox binary is run with a probe target (a separate program that first appends a marker line, then issues probe syscalls for every partition cell of the policy) on: 8 base policy files (incl. two under which execve is not allowed: no target can be started) whole (root / uid 65534 / with -no-new-privs=false / non-existent target), every line prefix and every byte prefix inside the first and last rule (thorough: every byte prefix), 13 defect kinds per base plus an unknown name at every position where a syscall name stands, JSON renderings with operands that need all 64 bits (unknown action/default/syscall/operation, wrong key, no syscalls, non-YAML, tab indentation, empty, argument 6 / -1, non-numeric value, duplicate name), a policy compiling to > 4096 instructions, a missing file and a directory; the same bytes are loaded by the harness through ucfg: if that fails, the policy is invalid or the kernel must refuse, the run must exit non-zero with no marker; otherwise the marker exists and the target's observations equal the reference decisions of the policy the file denotes"
 	ctx.Assumptions = []string{"a truncated file that still parses is a different valid policy and is judged as such", "probe syscalls ignore arguments", "fault points before exec are realised through inputs (file defects, kernel refusals), not by interrupting the sandbox process"}
 	return ctx.Finish()
 }
